@@ -13,7 +13,7 @@ RULE = ("the real _AdbPacketStore is driven next to an executable reference mode
 ASSUMPTIONS = ["get() is only called when the model says a matching pending pair exists (its documented precondition)", "clear() is called with concrete ids only"]
 SHARDS = {"quick": 8, "thorough": 16}
 TIME_BUDGET = {"quick": 60, "thorough": 900}
-FLOORS = {"quick": {"observer_evaluations": 100000, "gets": 2000, "clse_puts_unspecified": 50, "distinct": 500},
+FLOORS = {"quick": {"observer_evaluations": 100000, "gets": 2000, "clse_puts_unspecified": 50, "distinct": 500, "live_gets": 300, "live_puts": 300},
           "thorough": {"observer_evaluations": 2000000, "gets": 50000}}
 EXHAUSTIVE = {"quick": True, "thorough": True}
 
@@ -33,6 +33,9 @@ def gen_cases(tier, seed):
     n = 300 if tier == "quick" else 6000
     for i in range(n):
         yield {"kind": "rand", "seed": "%d:%d" % (seed, i), "len": 60 if tier == "quick" else 200}
+    # live: the store as the library really uses it (concurrent schedules and noisy single-actor sessions), monitored online
+    for i in range(300 if tier == "quick" else 6000):
+        yield {"kind": "live", "seed": "%d:L%d" % (seed, i), "impl": "async" if i % 4 == 0 else "sync", "conc": i % 3 != 0}
 
 
 def mutators(dom):
@@ -189,7 +192,48 @@ def fmt(path):
     return " ; ".join(out)
 
 
+def run_live(case):
+    from vlib import scen, sched, storespy
+    from checks import c06
+    rng = gen.rng_for("C19live", case["seed"])
+    spy = storespy.StoreSpy()
+    try:
+        if case["conc"]:
+            steps = []
+            k = 0
+            for a in range(rng.choice([2, 3])):
+                mine = []
+                for _ in range(rng.choice([1, 2, 3])):
+                    mine.append(rng.choice(c06.POOL)(k))
+                    k += 1
+                steps.append(mine)
+            dims = {"maxdata": 4096, "remote": rng.choice(gen.REMOTE_REGIMES), "id_start": rng.choice(gen.ID_STARTS), "frag": "whole", "empty_rate": 0.0, "noise": []}
+            strat = sched.RandomWalk(case["seed"], stay=rng.choice([0.2, 0.5, 0.8]))
+            c06.run_schedule(case["impl"], steps, strat, dims=dims)
+            ops = [[s_["op"] for s_ in a] for a in steps]
+        else:
+            sc = scen.gen_scenario(rng, nsteps=rng.randint(2, 8))
+            sc["dims"]["noise"] = ["bg", "phantom", "stale_clse"]
+            sess = gen.make_session(case["impl"], sc["dims"], case["seed"])
+            r = scen.Runner(sess, sc)
+            try:
+                r.run()
+            finally:
+                r.cleanup()
+                sess.dispose()
+            ops = [s_["op"] for s_ in sc["steps"]]
+        stats = {"live_store_calls": sum(spy.calls.values()), "live_puts": spy.calls["put"], "live_gets": spy.calls["get"], "live_finds": spy.calls["find"] + spy.calls["find_allow_zeros"],
+                 "live_clears": spy.calls["clear"] + spy.calls["clear_all"], "live_stores": spy.stores, "max_live_pending_pairs": spy.max_pending_pairs, "live_runs": 1}
+        viol = [{"mechanism": "live-model-mismatch", "detail": "%s %s: %s" % (case["impl"], ops, v[:400])} for v in spy.violations[:2]]
+        sample = {"case": case, "ops": ops, "store_calls": dict(spy.calls)} if case["seed"].endswith("L5") or case["seed"].endswith("L4") else None
+        return {"sig": ("live|%s" % case["seed"]) if spy.calls["get"] else None, "violations": viol, "stats": stats, "sample": sample}
+    finally:
+        spy.remove()
+
+
 def run_case(case):
+    if case["kind"] == "live":
+        return run_live(case)
     if case["kind"] == "exh":
         ex = Explorer(tuple(case["dom"]))
         store = repo.hidden_helpers._AdbPacketStore()
